@@ -69,6 +69,7 @@ type elInterp struct {
 	modelUC map[string]bool       // methods of model.NodeManagementUseCaseDataType
 	ucDecl  map[string]*ast.FuncDecl
 	vals    map[string]string // where the value of a name of the current frame comes from (see origin)
+	cond    int               // > 0 inside a branch or loop body: an assignment there may or may not happen
 }
 
 // ---- where a value comes from (added in round 5): just enough symbolic evaluation to decide whether the address an
@@ -87,6 +88,9 @@ func elFA(dev, ent, feat string) string { return "fa:" + dev + "|" + ent + "|" +
 func (in *elInterp) setVal(name, o string) {
 	if name == "_" || in.vals == nil {
 		return
+	}
+	if old, ok := in.vals[name]; ok && in.cond > 0 && old != o {
+		o = elConflict // assigned on some paths only: neither value can be relied on
 	}
 	in.vals[name] = o
 }
@@ -191,37 +195,44 @@ func (in *elInterp) originOfCall(callee *ast.FuncDecl, args []ast.Expr, recv str
 			nv[params[i]] = in.origin(a, depth)
 		}
 	}
-	saved := in.vals
+	saved, savedCond := in.vals, in.cond
 	in.vals = nv
 	res, first := "", true
-	ast.Inspect(callee.Body, func(n ast.Node) bool {
-		switch y := n.(type) {
-		case *ast.FuncLit:
-			return false
-		case *ast.AssignStmt:
-			in.bind(y.Lhs, y.Rhs, depth+1)
-		case *ast.ValueSpec:
-			var lhs []ast.Expr
-			for _, nm := range y.Names {
-				lhs = append(lhs, nm)
-			}
-			if len(y.Values) > 0 {
-				in.bind(lhs, y.Values, depth+1)
-			}
-		case *ast.ReturnStmt:
-			o := ""
-			if len(y.Results) >= 1 {
-				o = in.origin(y.Results[0], depth+1)
-			}
-			if first {
-				res, first = o, false
-			} else if res != o {
-				res = ""
-			}
+	for _, top := range callee.Body.List {
+		in.cond = 1
+		switch top.(type) {
+		case *ast.AssignStmt, *ast.DeclStmt, *ast.ReturnStmt:
+			in.cond = 0
 		}
-		return true
-	})
-	in.vals = saved
+		ast.Inspect(top, func(n ast.Node) bool {
+			switch y := n.(type) {
+			case *ast.FuncLit:
+				return false
+			case *ast.AssignStmt:
+				in.bind(y.Lhs, y.Rhs, depth+1)
+			case *ast.ValueSpec:
+				var lhs []ast.Expr
+				for _, nm := range y.Names {
+					lhs = append(lhs, nm)
+				}
+				if len(y.Values) > 0 {
+					in.bind(lhs, y.Values, depth+1)
+				}
+			case *ast.ReturnStmt:
+				o := ""
+				if len(y.Results) >= 1 {
+					o = in.origin(y.Results[0], depth+1)
+				}
+				if first {
+					res, first = o, false
+				} else if res != o {
+					res = ""
+				}
+			}
+			return true
+		})
+	}
+	in.vals, in.cond = saved, savedCond
 	return res
 }
 
@@ -242,14 +253,17 @@ func (in *elInterp) bind(lhs, rhs []ast.Expr, depth int) {
 		case *ast.SelectorExpr:
 			if id, ok := x.X.(*ast.Ident); ok && strings.HasPrefix(in.vals[id.Name], "fa:") {
 				parts := strings.SplitN(strings.TrimPrefix(in.vals[id.Name], "fa:"), "|", 3)
+				k, v := 2, "set"
 				switch x.Sel.Name {
 				case "Device":
-					parts[0] = o
+					k, v = 0, o
 				case "Entity":
-					parts[1] = o
-				default:
-					parts[2] = "set"
+					k, v = 1, o
 				}
+				if in.cond > 0 && parts[k] != v {
+					v = elConflict
+				}
+				parts[k] = v
 				in.vals[id.Name] = elFA(parts[0], parts[1], parts[2])
 			}
 		}
@@ -460,6 +474,8 @@ func (in *elInterp) branch(b *ast.BlockStmt, fd *ast.FuncDecl, depth int, defers
 	if b == nil {
 		return
 	}
+	in.cond++
+	defer func() { in.cond-- }()
 	if elTerminates(b) {
 		saved := map[string]int{}
 		for k, v := range in.held {
@@ -543,7 +559,9 @@ func (in *elInterp) walkStmt(st ast.Stmt, fd *ast.FuncDecl, depth int, defers *[
 		if elMentionsFeatures(x.X) && elTypeRoleCond(x.Body) {
 			in.emit("search", "range "+exprString(x.X), depth)
 		}
+		in.cond++
 		in.walkBlock(x.Body.List, fd, depth, defers)
+		in.cond--
 	case *ast.ForStmt:
 		in.walkStmt(x.Init, fd, depth, defers)
 		if x.Cond != nil {
@@ -552,8 +570,10 @@ func (in *elInterp) walkStmt(st ast.Stmt, fd *ast.FuncDecl, depth int, defers *[
 				in.emit("search", "for over features", depth)
 			}
 		}
+		in.cond++
 		in.walkBlock(x.Body.List, fd, depth, defers)
 		in.walkStmt(x.Post, fd, depth, defers)
+		in.cond--
 	case *ast.SwitchStmt:
 		in.walkStmt(x.Init, fd, depth, defers)
 		if x.Tag != nil {
